@@ -160,6 +160,13 @@ def hostile(rng, S):
             ('identity:multi-subst', ((Fa, syn.papp(H2, a, a), syn.papp(G1, c), Ga, syn.papp(syn.IDENTITY, a, b)), syn.papp(G1, b))),
             ('identity:multi-subst:2', ((Fa, Ga, syn.papp(syn.IDENTITY, a, b), op('MaterialConditional', syn.papp(G1, b), A)), A)),
             ('identity:multi-subst:3', ((syn.papp(H2, a, c), Fa, Ga, syn.papp(syn.IDENTITY, b, a)), op('Conjunction', syn.papp(G1, b), Fb))),
+            # two identities sharing a term in the same position: the flipped identity is only derivable by visiting the
+            # pair from both sides
+            ('identity:same-pos:1', ((syn.papp(syn.IDENTITY, a, b), syn.papp(syn.IDENTITY, a, c)), syn.papp(syn.IDENTITY, c, b))),
+            ('identity:same-pos:2', ((syn.papp(syn.IDENTITY, a, b), syn.papp(syn.IDENTITY, a, c)), syn.papp(syn.IDENTITY, b, c))),
+            ('identity:same-pos:3', ((syn.papp(syn.IDENTITY, a, b), syn.papp(syn.IDENTITY, c, b)), syn.papp(syn.IDENTITY, a, c))),
+            ('identity:same-pos:4', ((syn.papp(syn.IDENTITY, a, b), syn.papp(syn.IDENTITY, c, b)), syn.papp(syn.IDENTITY, c, a))),
+            ('identity:same-pos:5', ((syn.papp(syn.IDENTITY, b, a), syn.papp(syn.IDENTITY, a, c), Fb), syn.papp(F1, c))),
             ('identity:symmetry-binary', ((syn.papp(syn.IDENTITY, a, b), syn.papp(H2, a, b)), syn.papp(H2, b, a))),
         ]
     if S.modal:
